@@ -9,6 +9,7 @@ import (
 	"go.opentelemetry.io/collector/pdata/plog"
 	"os"
 	"runtime/debug"
+	"strings"
 	"sync"
 
 	"github.com/open-telemetry/otel-arrow/pkg/otel/arrow_record"
@@ -88,10 +89,11 @@ func safeTracesFrom(c *arrow_record.Consumer, bar *colarspb.BatchArrowRecords) (
 }
 
 func runMemLimit(o opts, out *Output) {
-	out.Imports = "From Verif Require Import Base.ListX Mem.Allocator."
+	out.Imports = "From Verif Require Import Base.ListX Mem.Allocator Stream.Abandon."
 	r := NewRng(o.seed)
 	limits := []uint64{16, 64, 256, 1024, 4096, 8192, 16384, 65536, 1 << 20, 70 << 20}
 	stats := map[string]int{}
+	var marksCases []string
 	for c := 0; c < o.n; c++ {
 		g := &OGen{r: r.Fork(), Wide: r.Chance(40), Mono: monoPick(r)}
 		nb := 1 + r.Intn(4)
@@ -135,6 +137,8 @@ func runMemLimit(o opts, out *Output) {
 			firstRefusal := len(bars)
 			var classes []string
 			opened := map[string]bool{}
+			var mh, mobs []string
+			marksOK := true
 			for i, b := range bars {
 				arrow_record.VerifConsumeReset()
 				res := safeTracesFrom(cons, b)
@@ -159,6 +163,43 @@ func runMemLimit(o opts, out *Output) {
 						}
 					}
 				}
+				// the batch as the marks model sees it: (schema id, library failure) per payload, the failure placed at the payload
+				// where Consume stopped (the last one the hook saw)
+				{
+					failIdx := -1
+					if res.Class == "limit" || res.Class == "error" {
+						for _, ev := range arrow_record.VerifConsumeLog() {
+							if ev.Payload > failIdx {
+								failIdx = ev.Payload
+							}
+						}
+						if failIdx < 0 || failIdx >= len(b.ArrowPayloads) {
+							marksOK = false // refused before any payload was looked at (or after all of them: a decoding error of the tables)
+						}
+					}
+					if res.Class == "panic" {
+						marksOK = false
+					}
+					var ps []string
+					for j, pl := range b.ArrowPayloads {
+						var sidn int
+						if _, err := fmt.Sscan(pl.SchemaId, &sidn); err != nil {
+							marksOK = false
+						}
+						f := "None"
+						if j == failIdx {
+							f = fmt.Sprintf("Some %v", res.Class == "limit")
+						}
+						ps = append(ps, fmt.Sprintf("(%d, %s)", sidn, f))
+					}
+					mh = append(mh, "["+strings.Join(ps, "; ")+"]")
+					switch res.Class {
+					case "ok":
+						mobs = append(mobs, "None")
+					default:
+						mobs = append(mobs, fmt.Sprintf("Some %v", res.Class == "limit"))
+					}
+				}
 				// which sub-streams had a live reader, and was one of them opened again (i.e. had been dropped)?
 				reopened := false
 				for _, ev := range arrow_record.VerifConsumeLog() {
@@ -174,9 +215,21 @@ func runMemLimit(o opts, out *Output) {
 				}
 				if i > firstRefusal {
 					stats["after_refusal_"+res.Class]++
+					if res.Class == "error" {
+						m := res.Msg
+						if k := strings.LastIndex(m, "->"); k >= 0 {
+							m = m[k+2:]
+						}
+						stats["after_refusal_error: "+sigOf(m)]++
+					}
 					// After a refusal the sub-streams that were never opened are out of step (any error is acceptable
 					// there), but a sub-stream whose reader was live keeps answering with the recognisable limit error:
 					// dropping that reader turns the refusal into an unrelated "invalid message type" error.
+					if res.Class == "error" && !reopened && want[i].Class == "ok" {
+						// a sub-stream left behind by the abandoned batch refuses: that refusal is a consequence of the memory limit
+						// and must be recognisable as such (errors.Is(err, ErrConsumerMemoryLimit))
+						out.Violation("C14", "later-refusal-not-recognisable", fmt.Sprintf("limit %d: batch %d (valid; after the refusal of batch %d) is refused with an error that is not recognisable as the memory-limit error: %s", lim, i, firstRefusal, res.Msg), replay)
+					}
 					if res.Class == "error" && reopened {
 						out.Violation("C14", "refusal-not-recognisable", fmt.Sprintf("limit %d: batch %d, after the refusal of batch %d, is refused with an error that is not recognisable as the memory-limit error although its sub-stream had a live reader: %s", lim, i, firstRefusal, res.Msg), replay)
 					}
@@ -186,6 +239,9 @@ func runMemLimit(o opts, out *Output) {
 				}
 			}
 			_ = cons.Close()
+			if marksOK && firstRefusal < len(bars) && len(marksCases) < 400 {
+				marksCases = append(marksCases, fmt.Sprintf(" ([%s], [%s])", strings.Join(mh, "; "), strings.Join(mobs, "; ")))
+			}
 			if prevFirstRefusal >= 0 && firstRefusal < prevFirstRefusal {
 				out.Violation("C14", "limit-not-monotone", fmt.Sprintf("raising the limit to %d refuses batch %d that a smaller limit decoded", lim, firstRefusal), map[string]any{"seed": o.seed, "case": c, "limit": lim})
 			}
@@ -195,6 +251,20 @@ func runMemLimit(o opts, out *Output) {
 		out.AddCase(map[string]any{"case": c, "batches": len(bars), "wide": g.Wide, "per_limit": perLimit}, true, fmt.Sprintf("batches=%d wide=%v", len(bars), g.Wide))
 	}
 	runSchemaSwitch(o, out, r, stats)
+	stats["marks_cases"] = len(marksCases)
+	out.Coq.WriteString("Definition marks_cases : list (list (list (N * option bool)) * list (option bool)) := [\n" + strings.Join(marksCases, ";\n") + "\n].\n")
+	out.Coq.WriteString(`(* every stream on which some batch was refused, under every limit: per batch the schema ids of the payloads and where the
+   library failed (for the limit or otherwise), run through the model of the abandon marks (Stream/Abandon.v); the class of every
+   batch (decoded / refused recognisably / refused otherwise) must be the one the model derives *)
+Definition batch_class (os : list mout) : option bool :=
+  fold_right (fun o acc => match o with MRefused r => Some r | _ => acc end) None os.
+Definition marks_mismatch := Eval vm_compute in
+  failing (fun c : list (list (N * option bool)) * list (option bool) =>
+             list_eqb (fun a b : option bool => match a, b with None, None => true | Some x, Some y => Bool.eqb x y | _, _ => false end)
+                      (map batch_class (mhistory true no_marks (fst c))) (snd c)) marks_cases.
+Print marks_mismatch.
+`)
+	out.Lists = append(out.Lists, "marks_mismatch")
 	out.Extra["stats"] = stats
 }
 
